@@ -2,7 +2,7 @@
 // transformation to one Go file of a copy of /repo and writes the file back. The benign-edit sweep
 // (tools/benign_sweep.py) uses it to try every rule on code that looks different and does the same.
 //
-//	refactor -dir <copy of repo> -file <relative path> -t reverse-cases|swap-if-else|inc-to-add|rename-locals
+//	refactor -dir <copy of repo> -file <relative path> -t reverse-cases|swap-if-else|inc-to-add|rename-locals|commute-compare
 package main
 
 import (
@@ -116,6 +116,55 @@ func main() {
 					n++
 				}
 			}
+			return true
+		})
+	case "commute-compare":
+		// a == b -> b == a, a < b -> b > a ... where neither operand calls anything (len, cap and conversions aside)
+		pure := func(e ast.Expr) bool {
+			ok := true
+			ast.Inspect(e, func(m ast.Node) bool {
+				switch x := m.(type) {
+				case *ast.CallExpr:
+					if tv, has := pk.TypesInfo.Types[x.Fun]; has && tv.IsType() {
+						return true
+					}
+					if id, isID := x.Fun.(*ast.Ident); isID && (id.Name == "len" || id.Name == "cap") {
+						if _, isB := pk.TypesInfo.Uses[id].(*types.Builtin); isB {
+							return true
+						}
+					}
+					ok = false
+				case *ast.FuncLit:
+					ok = false
+				case *ast.UnaryExpr:
+					if x.Op == token.ARROW {
+						ok = false
+					}
+				}
+				return ok
+			})
+			return ok
+		}
+		flip := map[token.Token]token.Token{token.EQL: token.EQL, token.NEQ: token.NEQ, token.LSS: token.GTR, token.GTR: token.LSS, token.LEQ: token.GEQ, token.GEQ: token.LEQ}
+		ast.Inspect(af, func(m ast.Node) bool {
+			be, ok := m.(*ast.BinaryExpr)
+			if !ok {
+				return true
+			}
+			op, has := flip[be.Op]
+			if !has || !pure(be.X) || !pure(be.Y) {
+				return true
+			}
+			// an untyped nil or constant on the left of == compiles as well; operands of mixed precedence get parentheses
+			paren := func(e ast.Expr) ast.Expr {
+				if _, isBin := e.(*ast.BinaryExpr); isBin {
+					return &ast.ParenExpr{X: e}
+				}
+				return e
+			}
+			be.X, be.Y = paren(be.Y), paren(be.X)
+			be.Op = op
+			n++
 			return true
 		})
 	case "rename-locals":
